@@ -99,9 +99,33 @@ pub fn precision_end(ps: u128) {
 /// Simulator-provided benchmarking overheads in picoseconds:
 /// `[sample_loop, tally_alloc, tally_dealloc, tally_realloc]`.
 pub fn overheads() -> Option<[u128; 4]> {
-    let (s, _) = sim::ctx()?;
-    Some(s.lock().overheads)
+    let _internal = crate::window::Scope::enter();
+    let (s, me) = sim::ctx()?;
+    let mut st = s.lock();
+    if !st.overheads_measured {
+        // The first request of a run pays for the measurement, as the first
+        // benchmark of a process does.
+        st.overheads_measured = true;
+        let ticks = st.overhead_measure_ticks;
+        if ticks > 0 {
+            st.fire("slow_overhead_measurement");
+            // `a`: how far the clock really moved (a stalled clock does not).
+            let before = st.clock.now;
+            st.advance(ticks);
+            let moved = st.clock.now - before;
+            st.tick(me);
+            st.log(
+                me,
+                Ev::User(crate::event::UserEv::Mark { tag: OVERHEADS_MEASURED_TAG, a: moved, b: ticks }),
+            );
+        }
+    }
+    Some(st.overheads)
 }
+
+/// `UserEv::Mark` tag: the one-off overhead measurement ran here and moved
+/// the virtual clock by `a` ticks (`b`: the configured cost).
+pub const OVERHEADS_MEASURED_TAG: u32 = 0x0EAD;
 
 /// Spends virtual time (harness cost scripts). Not a scheduling point.
 pub fn spend(ticks: u64) {
